@@ -156,7 +156,30 @@ def gen_one(rng, tier, index):
             'desc': desc, 'decoys': decoys, 'reload': rng.random() < 0.3}
 
 
+def gen_scale(rng, index):
+    """Dozens of entities with handler components (more than a hundred
+    queued load-time callbacks)."""
+    case = gen_one(rng, 'quick', index)
+    ents = []
+    for k in range(rng.choice([64, 65, 90, 130])):
+        comps = [{'type': rng.choice(['vf_fixtures.RC0', 'vf_fixtures.RC2',
+                                      'vf_fixtures.RC4',
+                                      'vf_fixtures.sub.Klass.Inner']),
+                  'args': [k]}]
+        if rng.random() < 0.3:
+            comps.append({'type': 'vf_fixtures.RC1', 'kwargs': {'alpha': k}})
+        ent = {'components': comps}
+        if rng.random() < 0.2:
+            ent['id'] = f'named{k}'
+        ents.append(ent)
+    case['desc']['entities'] = ents
+    case['reload'] = False
+    return case
+
+
 def gen_cases(tier, seed):
+    for i in range(4 if tier == 'quick' else 64):
+        yield gen_scale(random.Random(f'C15/scale/{seed}/{tier}/{i}'), i)
     n = 1500 if tier == 'quick' else 16 * 5000
     for i in range(n):
         yield gen_one(random.Random(f'C15/{seed}/{tier}/{i}'), tier, i)
